@@ -301,6 +301,15 @@ var c08LexEdges = []string{
 	"\xef\xbb\xbfreturn 1;", "return 1;\r\n", "x = 1;\r\nreturn x;\r\n", "\xff\xfereturn 1;", "return 1;\x1a", "//", "// comment", "/* c", "#", "@", "$", "$x", "~", "^", "&", "|", "\\", "\x00", "\xff", "\xc3", "\xe2\x82", "\r", "\r\n", "\t", "é", "x\x00y", "return \"a\x00b\";",
 }
 
+// every character that may follow a backslash inside a string literal
+var c08EscapeChars = func() []string {
+	var out []string
+	for b := 0x20; b < 0x7f; b++ {
+		out = append(out, string(rune(b)))
+	}
+	return append(out, "\n", "\r", "\t", "\x00", "\xff", "é", "√", "\u2028")
+}()
+
 var hostileDict = []string{"(", ")", "{", "}", "[", "]", ";", ",", ":", "?", "=", "==", "!=", "<", "<=", ">", ">=", "+", "-", "*", "/", "%", "**", "++", "--", "+=", "-=", "*=", "/=",
 	"&&", "||", "!", "~=", "!~", "..", ".", "√", "in", "if", "else", "while", "for", "foreach", "function", "return", "local", "switch", "case", "default", "true", "false",
 	"\"", "'", "/", "/a/", "/(/", "/[/i", "/(?i/", "/(?/", "/(?:a|b/", "\"abc\\", "\"abc\\\r", "\\\r", "\"unterminated", "0x", "1e999", "99999999999999999999999", "1.2.3", "0.", ".5", "$x", "_", "x", "f", "\\", "\x00", "\xff\xfe", "é", "𝒳", "`", "#", "//", "/*", "@", "~", "^", "&", "|",
@@ -352,6 +361,13 @@ func (p *c08) Enumerate(tier string) [][]int32 {
 	for e := range c08LexEdges {
 		for pre := 0; pre < 4; pre++ {
 			out = append(out, []int32{14, int32(e), int32(pre)})
+		}
+	}
+	for e := range c08EscapeChars {
+		for k := 0; k < 7; k++ {
+			for term := 0; term < 2; term++ {
+				out = append(out, []int32{16, int32(e), int32(k), int32(term), int32((e + k) % 4)})
+			}
 		}
 	}
 	for b := range c08Builtins {
@@ -640,7 +656,7 @@ func (p *c08) mutate(c *verifsim.Chooser, text string) (string, string) {
 func (p *c08) Run(c *verifsim.Chooser, st *Stats, render bool) *Outcome {
 	o := &Outcome{}
 	// weighted: 0 history x5, hostile text x3, tables x1 each, nesting, recursion
-	mode := []int{0, 1, 2, 3, 4, 5, 0, 0, 0, 0, 3, 3, 6, 7, 8, 9}[c.Intn(16)]
+	mode := []int{0, 1, 2, 3, 4, 5, 0, 0, 0, 0, 3, 3, 6, 7, 8, 9, 10}[c.Intn(17)]
 	sample := map[string]interface{}{}
 	defer func() {
 		if render {
@@ -748,6 +764,21 @@ func (p *c08) Run(c *verifsim.Chooser, st *Stats, render bool) *Outcome {
 		o.Nontrivial = true
 		st.fault("builtin-odd-arguments")
 		p.prepareAndPoke(o, st, text, c.Intn(2) == 0, sample)
+	case 10: // string escapes: every character after a backslash, input ending 0..5 characters later
+		ch := c08EscapeChars[c.Intn(len(c08EscapeChars))]
+		k := c.Intn(7)
+		term := c.Intn(2) == 1
+		prefix := []string{"return ", "", "x = \"ab\";\nreturn x + ", "function f(a) { return a; }\nif (f(1)) { y = "}[c.Intn(4)]
+		text := prefix + "\"a\\" + ch + "26af0z"[:k]
+		if term {
+			text += "\";"
+		}
+		currentDesc.Store(fmt.Sprintf("string escape \\%q +%d", ch, k))
+		sample["mode"], sample["script"] = "string escape", text
+		o.Digest.Str("esc" + text)
+		o.Nontrivial = true
+		st.fault("string-escape")
+		p.prepareAndPoke(o, st, text, k%2 == 0, sample)
 	case 8: // lexer / parser edge table
 		edge := c08LexEdges[c.Intn(len(c08LexEdges))]
 		prefix := []string{"", "return ", "x = 1;\nreturn x + ", "function f(a) { return a; }\nif (f(1)) { y = "}[c.Intn(4)]
